@@ -557,7 +557,8 @@ def run_case(case: Dict) -> CaseResult:
                                     f"{now['v']} now, no scan completed")
                 elif now["v"] not in (was["v"], "NONE") and not scanned_now:
                     if now["v"] in was.get("nv", []):
-                        res.violate(f"recreated-item-visible-stale:{kind_of(key)}",
+                        how = ":folder-deleted" if key[0] == "fi" and prev.get(("fo", key[1]), {}).get("del") else ""
+                        res.violate(f"recreated-item-visible-stale:{kind_of(key)}{how}",
                                     f"{when}: {key} was deleted showing {was['v']}, the re-created object shows "
                                     f"{now['v']} - the visible health of an older deleted namesake "
                                     f"({was.get('nv')}), no scan completed")
